@@ -281,13 +281,14 @@ func (n *c18Node) BeaconBlockHeader(ctx context.Context, opts *api.BeaconBlockHe
 	if id, ok := ctx.Value(c18LookupKey{}).(int); ok {
 		f.lookup = id
 	}
-	// the client library reads its options when it builds the request, which is not the instant the caller
-	// filled them in: another goroutine may run in between
+	// the request is under way from here on (the oracle counts it as pending) ...
+	simrt.Crit(func() { n.fetches = append(n.fetches, f) })
+	// ... but the client library reads its options when it builds the request, which is not the instant the
+	// caller filled them in: another goroutine may run in between
 	simrt.Yield("bn/BeaconBlockHeader/entry")
 	if b, ok := n.byRoot[opts.Block]; ok {
-		f.block = b
+		simrt.Crit(func() { f.block = b })
 	}
-	simrt.Crit(func() { n.fetches = append(n.fetches, f) })
 	_, err := n.script.Do(ctx, "bn", "BeaconBlockHeader", opts.Block)
 	if err == nil && (f.block < 0 || n.pl.Blocks[f.block].Missing) {
 		err = &api.Error{Method: "GET", Endpoint: "/eth/v1/beacon/headers/" + opts.Block, StatusCode: 404, Data: []byte(`{"code":404,"message":"NOT_FOUND: beacon block with root ` + opts.Block + `"}`)}
@@ -528,6 +529,11 @@ func c18Oracle(pl *c18Plan, chain *Chain, lookups []*c18LookupRec, deliveries []
 	}
 	for _, l := range lookups {
 		if !l.called {
+			out.Probes["lookup-not-reached"]++
+			continue
+		}
+		if !l.done && l.callT >= pl.End {
+			// delayed past the end of the run by earlier lookups of its client that hung: just called, not yet run
 			out.Probes["lookup-not-reached"]++
 			continue
 		}
